@@ -145,7 +145,15 @@ def num_permutation_codes(entity_cell):
 # ---------------------------------------------------------------------------------------------------
 # quadrature rule selection (documented behaviour, decided by R itself)
 # ---------------------------------------------------------------------------------------------------
-def integral_rule(integral, itype, cellname, entity_cell, tensor_product=False, degree_shift=0):
+def _polyset(ect, elements):
+    """Polyset type of the rule: superset over the form's argument elements (macro elements need a rule on the sub-cells)."""
+    pt = basix.PolysetType.standard
+    for e in elements or ():
+        pt = basix.polyset_superset(ect, pt, getattr(e, "polyset_type", basix.PolysetType.standard))
+    return pt
+
+
+def integral_rule(integral, itype, cellname, entity_cell, tensor_product=False, degree_shift=0, arg_elements=()):
     """(points on the reference integration entity, weights) for one UFL integral."""
     md = integral.metadata() or {}
     # quadrature elements define the rule
@@ -160,6 +168,9 @@ def integral_rule(integral, itype, cellname, entity_cell, tensor_product=False, 
         return custom
     if itype == "vertex" or entity_cell == "point":
         return np.zeros((1, 0)), np.ones(1)
+    if md.get("quadrature_rule") == "custom":
+        # the user's own points and weights on the reference integration entity
+        return np.asarray(md["quadrature_points"], dtype=float), np.asarray(md["quadrature_weights"], dtype=float)
     q = md.get("quadrature_degree", -1)
     if q is None or q == "default" or (isinstance(q, (int, np.integer)) and q < 0):
         q = int(np.max(md["estimated_polynomial_degree"])) + degree_shift
@@ -169,12 +180,13 @@ def integral_rule(integral, itype, cellname, entity_cell, tensor_product=False, 
         pts = np.asarray(basix.geometry(ect))
         return pts, np.full(len(pts), basix.cell.volume(ect) / len(pts))
     if tensor_product and itype == "cell" and cellname in ("quadrilateral", "hexahedron"):
-        p1, w1 = basix.make_quadrature(basix.CellType.interval, int(q), rule=basix.quadrature.string_to_type(scheme))
+        p1, w1 = basix.make_quadrature(basix.CellType.interval, int(q), rule=basix.quadrature.string_to_type(scheme),
+                                       polyset_type=_polyset(basix.CellType.interval, arg_elements))
         d = TDIM[cellname]
         pts = np.array([[p[0] for p in pp] for pp in itertools.product(*([p1] * d))])
         wts = np.array([np.prod(ww) for ww in itertools.product(*([w1] * d))])
         return pts, wts
-    return basix.make_quadrature(ect, int(q), rule=basix.quadrature.string_to_type(scheme))
+    return basix.make_quadrature(ect, int(q), rule=basix.quadrature.string_to_type(scheme), polyset_type=_polyset(ect, arg_elements))
 
 
 # ---------------------------------------------------------------------------------------------------
@@ -610,7 +622,7 @@ class FormOracle:
         for itd in self.itds_for(itype, sid):
             for itg in itd.integrals:
                 ecell = self.entity_cell(itype, entities[0])
-                pts, wts = integral_rule(itg, itype, self.cellname, ecell, self.tensor_product, self.degree_shift)
+                pts, wts = integral_rule(itg, itype, self.cellname, ecell, self.tensor_product, self.degree_shift, self.arg_elements)
                 P = {}
                 for s, ent, code in zip(sides, entities, codes):
                     if itype == "cell":
